@@ -484,4 +484,98 @@ theorem visit_spec (L : List Gram) (hk : KeysLt L) (hne : ∀ g ∈ L, 1 ≤ g.k
   simpa [visitAll] using this
 
 
+/-- trichotomy: different keys are ordered one way or the other -/
+theorem keyLt_total : ∀ a b : List Nat, a ≠ b → keyLt a b = true ∨ keyLt b a = true
+  | [], [], h => absurd rfl h
+  | [], _ :: _, _ => Or.inl rfl
+  | _ :: _, [], _ => Or.inr rfl
+  | x :: xs, y :: ys, h => by
+    unfold keyLt
+    by_cases h1 : x < y
+    · left; simp [h1]
+    · by_cases h2 : y < x
+      · right; simp [h2]
+      · have e : x = y := by omega
+        subst e
+        have hne : xs ≠ ys := fun e => h (by rw [e])
+        simp only [Nat.lt_irrefl, if_false]
+        exact keyLt_total xs ys hne
+
+def LeKey (a b : Gram) : Prop := keyLt b.key a.key = false
+
+theorem mem_insertGram (g x : Gram) (l : List Gram) : x ∈ insertGram g l ↔ x = g ∨ x ∈ l := by
+  induction l with
+  | nil => simp [insertGram]
+  | cons h t ih =>
+    unfold insertGram
+    split
+    · simp
+    · simp only [List.mem_cons, ih]
+      constructor
+      · rintro (h1 | h1 | h1) <;> simp [h1]
+      · rintro (h1 | h1 | h1) <;> simp [h1]
+
+theorem sorted_insertGram (g : Gram) (l : List Gram) (hs : l.Pairwise LeKey) : (insertGram g l).Pairwise LeKey := by
+  induction l with
+  | nil => simp [insertGram]
+  | cons h t ih =>
+    have hp := List.pairwise_cons.mp hs
+    unfold insertGram
+    by_cases hlt : keyLt g.key h.key = true
+    · rw [if_pos hlt]
+      refine List.pairwise_cons.mpr ⟨?_, hs⟩
+      intro x hx
+      rcases List.mem_cons.mp hx with e | e
+      · rw [e]; exact keyLt_asymm _ _ hlt
+      · -- x ≥ h > g
+        show keyLt x.key g.key = false
+        cases hc : keyLt x.key g.key with
+        | false => rfl
+        | true =>
+          have := keyLt_trans _ _ _ hc hlt
+          have h2 : keyLt x.key h.key = false := hp.1 x e
+          rw [h2] at this; cases this
+    · rw [if_neg hlt]
+      refine List.pairwise_cons.mpr ⟨?_, ih hp.2⟩
+      intro x hx
+      rcases (mem_insertGram g x t).mp hx with e | e
+      · rw [e]; show keyLt g.key h.key = false; simpa using hlt
+      · exact hp.1 x e
+
+theorem visitOrder_sorted (gs : List Gram) : (visitOrder gs).Pairwise LeKey := by
+  induction gs with
+  | nil => simp [visitOrder]
+  | cons g gs ih => exact sorted_insertGram g _ ih
+
+theorem mem_visitOrder (gs : List Gram) (x : Gram) : x ∈ visitOrder gs ↔ x ∈ gs := by
+  induction gs with
+  | nil => simp [visitOrder]
+  | cons g gs ih =>
+    show x ∈ insertGram g (visitOrder gs) ↔ _
+    rw [mem_insertGram, ih]; simp
+
+/-- **G1**: a sorted list without adjacent equal keys is strictly increasing -/
+theorem keysLt_of_sorted : ∀ (l : List Gram), l.Pairwise LeKey → hasDuplicate l = false → KeysLt l
+  | [], _, _ => List.Pairwise.nil
+  | [_], _, _ => by simp [KeysLt]
+  | a :: b :: t, hs, hd => by
+    have hp := List.pairwise_cons.mp hs
+    simp only [hasDuplicate, Bool.or_eq_false_iff, beq_eq_false_iff_ne, ne_eq] at hd
+    have ih := keysLt_of_sorted (b :: t) hp.2 hd.2
+    have hab : keyLt a.key b.key = true := by
+      rcases keyLt_total a.key b.key hd.1 with h | h
+      · exact h
+      · have : keyLt b.key a.key = false := hp.1 b (by simp)
+        rw [this] at h; cases h
+    refine List.pairwise_cons.mpr ⟨?_, ih⟩
+    intro x hx
+    rcases List.mem_cons.mp hx with e | e
+    · rw [e]; exact hab
+    · have hbx : keyLt b.key x.key = true := (List.pairwise_cons.mp ih).1 x e
+      exact keyLt_trans _ _ _ hab hbx
+
+theorem visitOrder_keysLt (gs : List Gram) (hd : hasDuplicate (visitOrder gs) = false) : KeysLt (visitOrder gs) :=
+  keysLt_of_sorted _ (visitOrder_sorted gs) hd
+
+
 end KV.TrieBuild
